@@ -56,7 +56,7 @@ func runC01(ctx *Ctx, idx int) Result {
 		KeyClass: gen.KeyClass(r.Intn(int(gen.NumKeyClasses))), ValClass: gen.ValsMixed,
 		Prio: gen.PrioRegime(r.Intn(int(gen.NumPrioRegimes))), Mix: mixC01, UseSetPct: 10,
 	}
-	if hc.KeyClass == gen.KeysMixed && hc.NKeys > 8 {
+	if (hc.KeyClass == gen.KeysMixed || hc.KeyClass == gen.KeysLong) && hc.NKeys > 8 {
 		hc.NKeys = 8 // keeps the 64 KiB keys affordable
 	}
 	h := NewHist(r, cfg, hc, fmt.Sprintf("c01-%d", idx))
